@@ -49,7 +49,10 @@ def run(prop, tier, seed, replay=None):
         chk.inconclusive_because("build failed: %s" % str(e)[-1500:])
         return chk.finish()
     cdir = os.path.join(chk.workdir, "corpus")
-    ents = corpus.build_corpus(cdir, seed, **corpus_params(tier))
+    cp = corpus_params(tier)
+    if prop == "C11":
+        cp["n_dst0"] = 60 if tier == "thorough" else 10
+    ents = corpus.build_corpus(cdir, seed, **cp)
     args = ["--zones", os.path.join(cdir, "list.txt"), "--props", prop, "--seed", str(seed), "--tier", tier,
             "--workers", str(core.ncpu()), "--case-timeout", "300"]
     if replay and "case" in replay.get("replay_args", {}):
